@@ -5,9 +5,17 @@
    block cipher is therefore stated against the common reference FIPS-197 (C03_aesni_block_...),
    and for the stream it is a direct path-against-path theorem for an arbitrary block function. *)
 From Coq Require Import NArith List.
-From LCP Require Import Base.CheckedMem Gen.Repo_aes Crypto.AesSpec Crypto.AesProofs Accel.AesNi
-  Crypto.AesCtrModel Crypto.AesRepo Accel.AesNiProofs Accel.AesNiKeyProofs Crypto.AesCtrProofs
-  Crypto.AesTop.
+From LCP Require Import Base.CheckedMem.
+From LCP Require Import Gen.Repo_aes.
+From LCP Require Import Crypto.AesSpec.
+From LCP Require Import Crypto.AesProofs.
+From LCP Require Import Accel.AesNi.
+From LCP Require Import Crypto.AesCtrModel.
+From LCP Require Import Crypto.AesRepo.
+From LCP Require Import Accel.AesNiProofs.
+From LCP Require Import Accel.AesNiKeyProofs.
+From LCP Require Import Crypto.AesCtrProofs.
+From LCP Require Import Crypto.AesTop.
 Import ListNotations.
 Local Open Scope N_scope.
 
